@@ -7,6 +7,7 @@ import (
 	"bytes"
 	"compress/zlib"
 	"fmt"
+	"strings"
 
 	"seehuhn.de/go/pdf"
 	"verif/sim/simdisk"
@@ -151,4 +152,26 @@ func NoLengthFile(seed int) (img []byte, ref pdf.Reference, body []byte) {
 	fmt.Fprintf(&b, "xref\n0 4\n0000000000 65535 f \n%010d 00000 n \n%010d 00000 n \n%010d 00000 n \n", offs[1], offs[2], offs[3])
 	fmt.Fprintf(&b, "trailer\n<< /Size 4 /Root 1 0 R >>\nstartxref\n%d\n%%%%EOF\n", xref)
 	return b.Bytes(), pdf.NewReference(3, 0), body
+}
+
+// DeepFile assembles by hand a small file whose object 3 is an array nested
+// deeper than any reader accepts (and object 4 a dictionary nested likewise),
+// so that Get has to fail - with the same error every time, for every Reader.
+func DeepFile(seed int) (img []byte, refs []pdf.Reference) {
+	depth := 300 + seed%50
+	var b bytes.Buffer
+	var offs [5]int
+	b.WriteString("%PDF-1.7\n%\xe2\xe3\xcf\xd3\n")
+	offs[1] = b.Len()
+	b.WriteString("1 0 obj\n<< /Type /Catalog /Pages 2 0 R >>\nendobj\n")
+	offs[2] = b.Len()
+	b.WriteString("2 0 obj\n<< /Type /Pages /Kids [] /Count 0 >>\nendobj\n")
+	offs[3] = b.Len()
+	b.WriteString("3 0 obj\n" + strings.Repeat("[", depth) + strings.Repeat("]", depth) + "\nendobj\n")
+	offs[4] = b.Len()
+	b.WriteString("4 0 obj\n" + strings.Repeat("<</K ", depth) + "0" + strings.Repeat(">>", depth) + "\nendobj\n")
+	xref := b.Len()
+	fmt.Fprintf(&b, "xref\n0 5\n0000000000 65535 f \n%010d 00000 n \n%010d 00000 n \n%010d 00000 n \n%010d 00000 n \n", offs[1], offs[2], offs[3], offs[4])
+	fmt.Fprintf(&b, "trailer\n<< /Size 5 /Root 1 0 R >>\nstartxref\n%d\n%%%%EOF\n", xref)
+	return b.Bytes(), []pdf.Reference{pdf.NewReference(3, 0), pdf.NewReference(4, 0)}
 }
